@@ -83,7 +83,9 @@ class Unit:
             it.event('unit-call', node, unit=unit.name, args=args, kwargs=kwargs)
             c = it.choose(1 + len(keys), f'summary of {unit.name}')
             if c in (0, None):
-                return unit.make_ret(it, args, kwargs, unit.facts())
+                r = unit.make_ret(it, args, kwargs, unit.facts())
+                it.event('unit-ret', node, unit=unit.name, value=r)
+                return r
             sample = esc[keys[c - 1]][0].value
             exc = ExcV(sample.cls, sample.args, sample.kwargs, node=sample.node, stack=it.stack + tuple(sample.stack),
                        op=sample.op, definite=sample.definite)
